@@ -7,7 +7,8 @@
    whether the transcribed design satisfies Decl (a counterexample there is a lead, not a verdict). *)
 EXTENDS Integers, Sequences, FiniteSets, TLC, Json
 
-CONSTANT Family      \* "cases" | "design" | "obs"
+CONSTANTS Family,     \* "cases" | "design" | "obs"
+          Repaired    \* TRUE: the code after the fix (wire message = message of the underlying DHT error / deadline; GetPredecessor wraps; ErrorMapper knows the deadline)
 
 Emit(r) == PrintT("@@" \o ToJson(r))
 
@@ -25,22 +26,25 @@ KVMethods    == {"Put", "Get", "Delete", "PrefixAppend", "PrefixList", "PrefixCo
                  "Acquire", "Renew", "Release", "ListKeys"}                          \* rpc.WrapErrorKV
 PlainMethods == {"Ping", "Notify", "FindSuccessor", "GetSuccessors", "RequestToJoin", "FinishJoin",
                  "RequestToLeave", "FinishLeave", "Import"}                          \* rpc.WrapError
-BareMethods  == {"GetPredecessor"}            \* returns err as is; the twirp server makes it an internal error
-Methods      == KVMethods \cup PlainMethods \cup BareMethods
+BareMethods  == IF Repaired THEN {} ELSE {"GetPredecessor"}   \* (before the fix) returns err as is; the twirp server makes it an internal error
+Methods      == KVMethods \cup PlainMethods \cup {"GetPredecessor"}
 
 Cases == [m : Methods, err : Origins, wrap : BOOLEAN]
 
 -------------------------------------------------------------------------------
 (* transcription *)
 OriginRetry(c) == c.err \in Retryable \cup {"deadline"}      \* ErrorIsRetryable = errors.Is over retryableErrs: sees through %w
-Msg(c)  == IF c.wrap THEN <<"context", c.err>> ELSE <<c.err>>  \* err.Error(), the only thing that crosses the wire besides the code
+(* the message is the only thing that crosses the wire besides the code: err.Error() before the fix, the message of the
+   underlying DHT error / deadline (errors.As / errors.Is through %w) after it *)
+Msg(c)  == IF c.wrap /\ ~(Repaired /\ c.err \in Defined \cup {"deadline"}) THEN <<"context", c.err>> ELSE <<c.err>>
 Code(c) == IF c.m \in BareMethods THEN "internal"
            ELSE IF OriginRetry(c) THEN "failed_precondition" ELSE "internal"
 (* caller: twirp error(code, msg); RemoteNode applies ErrorMapper: errorStrMap[msg] if present, else the twirp error *)
-Mapped(c) == IF Len(Msg(c)) = 1 /\ Msg(c)[1] \in Defined THEN Msg(c)[1] ELSE "twirp"
+Known == Defined \cup (IF Repaired THEN {"deadline"} ELSE {})
+Mapped(c) == IF Len(Msg(c)) = 1 /\ Msg(c)[1] \in Known THEN Msg(c)[1] ELSE "twirp"
 ImplObs(c) == [clientNil   |-> FALSE,
                clientIs    |-> Mapped(c) = c.err,
-               clientRetry |-> Mapped(c) \in Retryable,   \* a twirp error is neither a chord error nor context.DeadlineExceeded
+               clientRetry |-> Mapped(c) \in Retryable \cup {"deadline"},   \* a twirp error is neither a chord error nor context.DeadlineExceeded
                originRetry |-> OriginRetry(c)]
 
 -------------------------------------------------------------------------------
